@@ -1169,7 +1169,7 @@ def run(ctx):
         cases = rep
     else:
         cases = diff.load_corpus("C10")
-        n = 3000 if tier == "quick" else 70000
+        n = 3000 if tier == "quick" else 55000
         pairs = directed_cases() + [gen_pair(rng) for _ in range(n)]
         pairs = [(sanitize(a, {k: sanitize(v, sh) for k, v in sh.items()}),
                   sanitize(b, {k: sanitize(v, sh) for k, v in sh.items()}),
